@@ -7,6 +7,9 @@ E1 = "symbolic execution of the real Python/numpy code on solver-backed scalars 
 NOTE_E1 = ("numpy object-array semantics taken as numpy's numeric semantics (validated per obligation by running the same harness on "
            "rational constants vs plain numpy); floats modelled as reals; z3 5.1.0; shapes bounded as stated in evidence.bounds")
 
+KERN = ("; LAPACK / scipy kernels are uninterpreted functions of their argument's normal form (with algebraic contracts where named): "
+        "their numerical behaviour is the trusted base")
+
 CHECKS = {
  "C01": dict(engine="symnp", category="other", design_ref="DESIGN.md §3 C01", technique=E1, note=NOTE_E1,
    text="Bounded symbolic execution of the real permute_systems/swap/permutation_operator/swap_operator: for every enumerated configuration "
@@ -59,6 +62,26 @@ CHECKS = {
    text="Per instance: the cb-trace-norm program equals Watrous' SDP; diamond distance and cb spectral norm are that program for J1-J2 and for the oracle's own dual map; the channel-fidelity "
         "program equals the definition's SDP for local dimension 2, 3, 5 (4, 6 thorough). Shortcut branches on a symbolic CP Choi matrix: channel => 1, CP non-TP => operator norm of Phi*(I) "
         "(the latter is a recorded known finding: the code returns the trace norm)."),
+ "C13": dict(engine="symnp", category="other", design_ref="DESIGN.md §3 C13", technique=E1 + "; sqrtm / nuclear norm / eigenvalue kernels uninterpreted (congruence)", note=NOTE_E1 + KERN,
+   text="For symbolic density operators rho = AA^dagger/Tr (all rank pairs, real and complex, d=2 quick / 3 thorough) the value returned by fidelity, trace_distance, hilbert_schmidt, "
+        "hilbert_schmidt_inner_product, helstrom_holevo, bures_distance, bures_angle, sub_fidelity, matsumoto_fidelity equals the documented formula with each kernel applied to an argument "
+        "proved entry-wise equal; non-density inputs are rejected on every path. hilbert_schmidt's spectral-norm formula is a recorded known finding."),
+ "C14": dict(engine="symnp", category="other", design_ref="DESIGN.md §3 C14", technique=E1 + "; svd / nuclear norm / rank / eigenvalue kernels uninterpreted, svd contract for the Schmidt decomposition", note=NOTE_E1 + KERN,
+   text="negativity / log_negativity = stated function of the nuclear-norm kernel of the oracle's own partial transpose (vector and density input, dim list/int/omitted); Schmidt decomposition: "
+        "the SVD argument is the amplitude matrix and, under the svd contract, the factors rebuild the state (unequal local dims); schmidt_rank / sk_vector_norm / is_product arguments; "
+        "l1 coherence, purity, entropy, concurrence, entanglement of formation (pure branch) as formulas of the right kernel arguments."),
+ "C16": dict(engine="symnp", category="other", design_ref="DESIGN.md §3 C16", technique=E1 + "; eigenvalue / rank / Cholesky / null-space kernels uninterpreted with contracts", note=NOTE_E1 + KERN,
+   text="Each tolerance predicate: residuals within atol/2 => True, beyond 2(atol+rtol*magnitude) => False, exact-by-construction => True, invariance under the property-preserving "
+        "transformations; exact-equivalence predicates as iff formulas; kernel predicates as the stated function of the right kernel argument; vec/unvec, vec(AXB), tensor associativity and powers, "
+        "Gram round trip under the Cholesky contract, commutant under the null-space contract, majorisation."),
+ "C18": dict(engine="symnp", category="other", design_ref="DESIGN.md §3 C18", technique=E1 + " with a symbolic test vector; CrossHair (symbolic execution + z3) for unique_perms; complete enumeration of the finite spaces (perm_sign)", note=NOTE_E1 + "; projector entries lifted to exact k/p! (|err|<1e-12); orth kernel checked on the concrete output; CrossHair per-condition timeout",
+   text="Symmetric / antisymmetric projectors for every (d,p) in the bound: idempotent, Hermitian, equal to the (signed) average of the oracle's own permutation maps, fixed / sign-flipped by every "
+        "generator (all permutations in thorough), mutually orthogonal, summing to the identity for p=2, exact trace = binomial; isometry forms; perm_sign over all permutations of <=6 elements (enumeration); "
+        "unique_perms confirmed over all paths by CrossHair for len<=3 (<=5 thorough); perfect_matchings with symbolic pairwise-distinct labels."),
+ "C19": dict(engine="symnp", category="other", design_ref="DESIGN.md §3 C19", technique=E1 + "; randomness replaced by a recording generator whose draws are unconstrained solver variables; qr / svd / eigh / fractional-power kernels with contracts", note=NOTE_E1 + KERN + "; numpy's contract for seeded generators (same seed => same stream) trusted",
+   text="Provenance: every draw of every toqito.rand function comes from one default_rng(seed) built from its own seed argument and nothing touches the global state. Validity for arbitrary draws: density "
+        "matrices as HH^dagger/Tr of a dim x k factor, unitaries / bases under the QR contract, PSD operators, state vectors as normalised sums of k product terms, POVMs summing to the identity, circulant Gram matrices; "
+        "measure(): Born rule, post-states, completeness guard; pretty good / bad measurements sum to the identity under the inverse-square-root contract. The Bures branch's rank bound is a recorded known finding."),
 }
 NOT_BUILT = "check not built yet in this round (planned per DESIGN.md §3); nothing is claimed"
 NA = {f"C{i:02d}": NOT_BUILT for i in range(1, 21) if f"C{i:02d}" not in CHECKS}
@@ -69,7 +92,7 @@ ENGINES = [
  {"name": "sdpcap", "path": "sdpcap/", "serves_properties": [k for k, v in CHECKS.items() if v["engine"] == "sdpcap"],
   "kind_free_text": "E2: capture of the cvxpy/picos program the real code builds, exact affine extraction on a basis, z3 obligations T1/T2/T3"},
 ]
-NOTES = ("fix: commits in /repo: cb7d15f, 497f2e2 (C01), 03de9a5, c7b010c (C06), b47dfd5 (C10), 897b7c3 (C11), cb4fb7c (C12), 73fd273, 0d7cc36 (C20); see known_findings.json 'fixed'. "
+NOTES = ("fix: commits in /repo: cb7d15f, 497f2e2 (C01), 03de9a5, c7b010c (C06), b47dfd5 (C10), 897b7c3 (C11), cb4fb7c (C12), 73fd273, 0d7cc36 (C20), fbaafd8 (C13), c89db21, 7c812ba (C14), 4335272, b792854, 75fd335 (C16), b37e413, 80f67c2, 99d5db9 (C18), c68bb85 (C19); see known_findings.json 'fixed'. "
          "Exit codes: 0 held / 1 VIOLATION (reproduced on the real code) / 2 harness error.")
 
 checks = []
